@@ -51,6 +51,7 @@ def op_st():
         st.sampled_from(HOSTS).map(lambda h: {"op": "revoke-host", "host": h}),
         st.just({"op": "clear"}),
         st.tuples(st.booleans(), st.sampled_from([None, True, False])).map(lambda t: {"op": "export-import", "merge": t[0], "cb": t[1]}),
+        st.tuples(st.booleans(), hp, st.sampled_from(PARSABLE)).map(lambda t: {"op": "import-broken", "merge": t[0], "hp": list(t[1]), "cert": t[2]}),
         st.just({"op": "new-client"}),
         st.just({"op": "use-context"}),
         hp.map(lambda t: {"op": "get-tofu-off", "hp": list(t)}),
@@ -348,6 +349,23 @@ def run_history(case: dict):
                 db.export_toml(f)
                 cb = None if op["cb"] is None else (lambda *a, v=op["cb"]: v)
                 db.import_toml(f, merge=op["merge"], on_conflict=cb)
+            elif o == "import-broken":
+                # a backup whose first entry is fine and whose second entry is damaged (a cut-off fingerprint): an import
+                # that fails must not have touched any pin, in merge and in replace mode
+                f = Path(d) / f"broken-{idx}.toml"
+                hp = tuple(op["hp"])
+                f.write_text('[_metadata]\nversion = "1.0"\n\n'
+                             f'[hosts."{hp[0]}:{hp[1]}"]\nhostname = "{hp[0]}"\nport = {hp[1]}\nfingerprint = "{certs.get(op["cert"]).fingerprint}"\n'
+                             'first_seen = "2020-01-01T00:00:00+00:00"\nlast_seen = "2021-01-01T00:00:00+00:00"\n\n'
+                             '[hosts."zz-broken.example:1965"]\nhostname = "zz-broken.example"\nport = 1965\nfingerprint = "sha256:abc"\n'
+                             'first_seen = "2020-01-01T00:00:00+00:00"\nlast_seen = "2021-01-01T00:00:00+00:00"\n')
+                try:
+                    db.import_toml(f, merge=op["merge"], on_conflict=lambda *a: True)
+                except Exception:
+                    pass  # refused as a whole: the comparison with the model below applies
+                else:
+                    model.clear()
+                    model.update(table())  # an implementation that takes what it can: what it took is the new state
             elif o == "new-client":
                 client = GeminiClient(timeout=10, tofu_db_path=dbpath)
             elif o == "use-context":
